@@ -59,6 +59,12 @@ structure Prims where
   unary : Op → V → W → Except E V × W
   /-- `janet_getindex(ds, index)` (`JOP_GET_INDEX`) -/
   getIndex : V → Nat → W → Except E V × W
+  /-- `janet_put(ds, key, value)` (`JOP_PUT`) -/
+  put3 : V → V → V → W → Except E Unit × W
+  /-- `JOP_SIGNAL`: suspend the fiber with a signal of the given type; the result is the value passed to the next resume -/
+  signal : V → Nat → W → Except E V × W
+  /-- `JOP_ERROR`: the error raised with payload `x` -/
+  raise : V → E
 
 /-- computations with effects on the world; the world is kept when an error is raised -/
 def M (P : Prims) (α : Type) : Type := P.W → Except P.E α × P.W
@@ -284,6 +290,9 @@ def step (i : Instr) (f : Frame P) : Option (M P (Step P)) :=
   | .jumpIfNotNil => some (cont (if P.isNil (getSlot P f i.A) then next P f else jumpBy P f i.ES))
   | .length | .bnot =>
     some (M.bind (P.unary i.op (getSlot P f i.E)) fun v => cont (next P (setSlot P f i.A v)))
+  | .put => some (M.bind (P.put3 (getSlot P f i.A) (getSlot P f i.B) (getSlot P f i.C)) fun _ => cont (next P f))
+  | .signal => some (M.bind (P.signal (getSlot P f i.B) i.C) fun v => cont (next P (setSlot P f i.A v)))
+  | .error => some (M.throw (P.raise (getSlot P f i.A)))
   | .getIndex => some (M.bind (P.getIndex (getSlot P f i.B) i.C) fun v => cont (next P (setSlot P f i.A v)))
   | op =>
     match immBase op with
